@@ -5,7 +5,9 @@ import (
 	"encoding/json"
 	"fmt"
 	"sort"
+	"sync/atomic"
 	"time"
+	"verifmc/internal/shapes"
 	"verifmc/internal/spec"
 
 	"github.com/RoaringBitmap/roaring/v2"
@@ -57,6 +59,22 @@ func ids() []string {
 func IDs() []string { return ids() }
 
 func runScenarios(c *Ctx, scs ...explore.Scenario) { explore.RunAll(c.R, scs, c.Replay) }
+
+// corpusReadback reports what shapes.Build recorded while the corpus was built: every zero-copy / frozen corpus entry
+// is the library reading back bytes it has just written, so an error there is a round-trip violation (the entry itself
+// falls back to the plain bitmap). Only the serialization checks include this scenario; checks of properties that say
+// nothing about serialization stay silent about it. The corpus is rebuilt on replay, so the case reproduces.
+func corpusReadback(c *Ctx, name string, words ...string) explore.Scenario {
+	var n int64
+	return &explore.Product{Name: name, Dims: []int{1}, Deadline: c.Budget(30, 300), Execs: &n,
+		Run: func(idx []int) (string, *ev.Fail) {
+			atomic.AddInt64(&n, 1)
+			if es := shapes.BuildErrors(words...); len(es) > 0 {
+				return "", fail(es[0].Step, "readback", "the library cannot read back what it wrote for %s: %s (%d corpus entries affected)", es[0].Spec, es[0].Err, len(es))
+			}
+			return "ok", nil
+		}, Describe: func(idx []int) any { return "all zero-copy / frozen corpus entries" }}
+}
 
 // ---- 32-bit world: one register, used by C02 and others ----
 
